@@ -5,6 +5,7 @@ import (
 	"bytes"
 	"crypto/sha256"
 	"fmt"
+	"sync"
 	"testing"
 
 	"verifharness/kit"
@@ -93,6 +94,48 @@ func TestC03(t *testing.T) {
 		}
 	}
 	r.Count("sizes", len(sizes))
+	// Concurrent callers on private lists (p2p block decoding and the consensus proposer compute
+	// roots at the same time in a node): every call must still return the reference root.
+	{
+		workers, per := 8, r.N(300, 6000)
+		type bad struct {
+			n         int
+			got, want [32]byte
+			pan       interface{}
+		}
+		bads := make(chan bad, workers*per)
+		var wg sync.WaitGroup
+		for w := 0; w < workers; w++ {
+			wg.Add(1)
+			go func(w int) {
+				defer wg.Done()
+				lr := r.Rand(fmt.Sprintf("conc/%d", w))
+				for i := 0; i < per; i++ {
+					n := lr.Intn(40)
+					hs := make([][32]byte, n)
+					in := make([]common.Uint256, n)
+					for j := range hs {
+						lr.Read(hs[j][:])
+						in[j] = common.Uint256(hs[j])
+					}
+					want := refRoot(hs)
+					var got common.Uint256
+					p := kit.Catch(func() { got = common.ComputeMerkleRoot(in) })
+					if p != nil || [32]byte(got) != want {
+						bads <- bad{n, [32]byte(got), want, p}
+					}
+				}
+			}(w)
+		}
+		wg.Wait()
+		close(bads)
+		r.Eval(workers * per)
+		r.Count("concurrent_root_computations", workers*per)
+		for b := range bads {
+			r.Violation("root-mismatch-under-concurrent-callers", fmt.Sprintf("n=%d got %x want %x panic=%v (%d goroutines computing roots of private lists concurrently)", b.n, b.got[:], b.want[:], b.pan, workers),
+				map[string]interface{}{"n": b.n, "goroutines": workers})
+		}
+	}
 	// Block level: RebuildMerkleRoot and Deserialization agree with the reference.
 	nb := r.N(150, 1500)
 	for i := 0; i < nb; i++ {
